@@ -60,6 +60,7 @@ func anyRouter(*http.Request, *types.Context) bool { return true }
 //
 // 如果某一个对象不匹配，那么之前的对象对路径以及参数所作的修改都将被撤消。
 func AndMatcher(m ...Matcher) Matcher {
+	m = slices.Clone(m) // 不能保留调用方的 m，调用方可能会在之后修改其内容。
 	return MatcherFunc(func(r *http.Request, ctx *types.Context) bool {
 		path := r.URL.Path
 		ps := cloneParams(ctx)
@@ -99,6 +100,7 @@ func restoreParams(ctx *types.Context, ps map[string]string) {
 
 // OrMatcher 仅需符合一个要求
 func OrMatcher(m ...Matcher) Matcher {
+	m = slices.Clone(m) // 不能保留调用方的 m，调用方可能会在之后修改其内容。
 	return MatcherFunc(func(r *http.Request, ctx *types.Context) bool {
 		for _, mm := range m {
 			if ok := mm.Match(r, ctx); ok {
